@@ -36,7 +36,7 @@ def replay(function, clause, model):
 def run_bounded(tier, seed):
     n, f, inp = MH.bounded(tier, seed)
     return {'tool': 'construct / layout check against the reference codec / parse / compare on the real txdbus.message',
-            'bound': '4 message types x 8 optional-field subsets x flags x %d bodies; %d foreign messages (both byte orders, permuted fields, unknown field codes); 128 MiB boundary incl. header padding' % (408 if tier == 'thorough' else 22, 6000 if tier == 'thorough' else 120),
+            'bound': '4 message types x 8 optional-field subsets x flags x %d bodies; %d foreign messages (both byte orders, permuted fields, unknown field codes); 128 MiB boundary incl. header padding' % (408 if tier == 'thorough' else 22, 32000 if tier == 'thorough' else 120),
             'evaluations': n, 'failures': [] if not f else [{'function': 'txdbus.message', 'clause': 'message-format', 'input': inp, 'detail': f}]}
 
 
